@@ -11,6 +11,29 @@ BAD_LINES = [
 ]
 
 
+def source_literal_lines():
+    """unparsable lines built from the string literals of the audit processor's own source in the tree under check
+    (a special case for some token in a line shows up as a literal there): the literal alone, with a suffix, with a
+    suffix and a second word. None of them is an audit record, so each must stop the processor with an error."""
+    import os, re
+    from . import core
+    lits = []
+    d = os.path.join(core.REPO, "processors", "auditd")
+    for f in sorted(os.listdir(d)):
+        if f.endswith(".go") and not f.endswith("_test.go") and not f.startswith("zz_"):
+            src = open(os.path.join(d, f), encoding="utf-8", errors="replace").read()
+            for m in re.finditer(r'"((?:[^"\\\n]|\\.)*)"', src):
+                t = m.group(1)
+                if 1 <= len(t) <= 24 and "%" not in t and "\\" not in t and t.isascii() and t.isprintable() and "/" not in t and t.strip():
+                    lits.append(t)
+    out = []
+    for t in sorted(set(lits))[:40]:
+        for line in (t, t + "web01", t + "web01 x"):
+            if "msg=audit(" not in line:
+                out.append(line.encode())
+    return out
+
+
 def N(seq, kind, typ="o", ses="", pid="", res="s", nargs=0, variant=0):
     return "N:%d:%s:%s:%s:%s:%s:%d:%d" % (seq, kind, typ, hx(ses), hx(pid), res, nargs, variant)
 
@@ -246,6 +269,9 @@ class AuditProcFamily(Family):
         for i in range(len(base) + 1):
             for b in BAD_LINES[:4]:
                 cs.append({"fail": "-", "ops": base[:i] + ["B:" + hx(b)] + base[i:]})
+            if i in (0, len(base) // 2):
+                for b in source_literal_lines():
+                    cs.append({"fail": "-", "ops": base[:i] + ["B:" + hx(b)] + base[i:]})
             cs.append({"fail": "-", "ops": base[:i] + [G(0, "nobody")] + base[i:]})
             cs.append({"fail": "-", "ops": base[:i] + [G(7, "")] + base[i:]})
         for k in range(len(base) + 1):
@@ -258,7 +284,7 @@ class AuditProcFamily(Family):
         quick = tier == "quick"
         self.rule = ("systematic: a malformed line / invalid login at every position and a write failure at every k of a correlated stream; "
                      "seeded random: 1-3 sessions, records of up to 3 kernel events interleaved, single and compound events completed by PROCTITLE / EOE / both / nothing, "
-                     "stray late records, out-of-order starts, malformed lines, empty lines, invalid logins, unparsable PIDs, write failures; non-trivial = >=2 events written or stopped by an error")
+                     "stray late records, out-of-order starts, malformed lines (incl. lines built from the string literals of the processor's own source), empty lines, invalid logins, unparsable PIDs, write failures; non-trivial = >=2 events written or stopped by an error")
         cs = self.systematic(rng)
         for _ in range(300 if quick else 3000):
             cs.append(simple_stream(rng))
